@@ -18,6 +18,7 @@ def check(model: Model, run: Run) -> None:
                        "and implicit KeyError forks alike), E2 refusals raised inside _session.py are LDAPError, E3 every server "
                        "response is queued under a live fact that its id is outstanding, E4 a final response retires the id")
     common_coverage(ex, run)
+    construction_does_not_refuse(model, run, ex)
     n_e3 = 0
     for q in SESSION_CLASSES:
         sending = set(ex.sending_entries(q))
@@ -88,3 +89,28 @@ def check(model: Model, run: Run) -> None:
                                                  f"after a final response ({k}) the id may still be outstanding, so a second response would be accepted", where(ex, e), p.trace()))
     run.floor("server response paths", n_e3, 10)
     run.floor("E1 obligations", run.rules.get("E1-no-wire-effect-on-failure", {}).get("obligations", 0), 40)
+
+
+def construction_does_not_refuse(model: Model, run: Run, ex) -> None:
+    """E6: a sending call builds its message object before the gate is consulted.  If a constructor hook of a message / result /
+    control / filter class (`__post_init__`, `__init__`) raises, the call is refused by something that is not the session's
+    gate and with whatever exception class the hook chose (E2 only sees raises inside _session.py)."""
+    from .c05 import may_raise
+    from ..raises import exc_is_sub
+    mr = may_raise(model)
+    n = 0
+    for q in SESSION_CLASSES:
+        for entry in sorted(ex.sending_entries(q)):
+            fi = model.find_method(q, entry)
+            if fi is None:
+                continue
+            n += 1
+            esc = mr.escapes(fi.qualname, q)
+            bad = [e for e in esc if e.kind == "explicit" and e.func.rsplit(".", 1)[-1] in ("__post_init__", "__init__", "__new__") and
+                   not exc_is_sub(model, e.exc, "sansldap._session.LDAPError") and e.func.rsplit(".", 1)[0] in model.classes]
+            run.ob("E6-message-construction-does-not-refuse", not bad, {"entry": f"{ex.short(q)}.{entry}"})
+            for e in sorted(bad, key=str)[:1]:
+                run.fail(Finding("E6-message-construction-does-not-refuse", e.func, f"{e.exc.split('.')[-1]}|{e.text[:60]}",
+                                 f"{ex.short(q)}.{entry} can be refused by `{e.text[:60]}` in {e.func.split('sansldap.')[-1]}: a {e.exc.split('.')[-1]}, not the library's LDAPError, "
+                                 "raised before the session's own checks run", f"{model.relpath(model.functions[e.func].module) if e.func in model.functions else ''}:{e.line}"))
+    run.floor("sending entries examined for constructor refusals", n, 10)
